@@ -47,6 +47,31 @@ def rule_D8(tree: Tree) -> RuleResult:
                                        f"`packets.extend(data)` at line {mg.lineno} adds a frame to the datagram being assembled under {conds or 'no condition'} — without "
                                        f"`frame.src_packet.ts == ts` frames of different input datagrams (equal packet-number bytes, e.g. client pn 5 then server pn 5) are "
                                        f"merged into one output datagram carrying the first one's direction and time", m.line(mg.ast)))
+    # no selected data is lost: every path from the data selection to the next iteration passes exactly one `packets.extend(data)`
+    r.instances += 1
+    skip = [n for n in cfg.nodes if n.id in body and n.kind == "if" and src(n.ast.test) == "data is None"]
+    lost = []
+    if skip:
+        start = skip[0].id
+        merge_ids = {mg.id for mg in merges}
+        # paths from the F-successor of `data is None` back to the loop header avoiding all merges
+        succ_f = [s for s, lab in cfg.succ[start] if lab == "F"]
+        for s0 in succ_f:
+            seen = set()
+            work = [s0]
+            while work:
+                x = work.pop()
+                if x in seen or x in merge_ids:
+                    continue
+                seen.add(x)
+                if x == loop.id:
+                    lost.append(s0)
+                    break
+                work.extend(cfg.successors(x, False))
+    # STREAM frames reach the merge too: the `data = frame.stream_data` branch falls through to the same code
+    r.ob(bool(skip) and not lost, Finding("D8", f"{QOB}:QUICOutputbuilder.build:no-data-loss",
+                                          "some path through the loop body selects frame data but reaches the next frame without `packets.extend(data)`: that frame's bytes vanish "
+                                          "from the export (e.g. the first frame of a later coalesced packet of the same datagram)", m.line(f.node)))
     # emission inside the loop precedes the rebinding of ts / isserver; rebinding takes the new frame's values
     r.instances += 1
     emits = [n for n in cfg.nodes if n.id in body and n.kind == "stmt" and any(isinstance(c, ast.Call) and dotted(c.func) == "self.out.append" for c in ast.walk(n.ast))]
